@@ -306,7 +306,8 @@ SPEC = PropSpec(
                  "dominated by a guard entailing index < len. R19.4 runs both commands over the real framer source on "
                  "empty files, files with stray trailing bytes and truncated packets: a listing, never a traceback or "
                  "a hang (bounded interpreter steps). Does not decide rich's rendering."
-                 ' The real framer is also run on a file with a maximum-size packet (thorough: a 45 MB file).'),
+                 ' The real framer is also run on a file with a maximum-size packet (thorough: a 45 MB file).'
+                 " spp parse runs the library's real packet_generator over a header-only definition (only XML loading is stubbed), on empty, stray, complete and cut files and indices up to beyond the end."),
     rule_doc="R19.1 one obligation per n; R19.2 per (n, index); R19.2g guard dominance; R19.3 per command; R19.4 per file kind",
     assumptions=["click passes the declared option types", "framer behaviour on sized sources as decided by C10"],
     mutants=mutants,
